@@ -83,134 +83,23 @@ func lagPolicy(t *Tape) *Policy {
 func C01Scenario() *Scenario {
 	return &Scenario{Prop: "C01", Init: func(w *World) {
 		t := w.T
-		InstallUniverse(w)
-		cfg := &CompositeCfg{Name: "cc", Ver: 1}
-		if t.Pick(3, "scope") == 2 {
-			cfg.Parent = ResClusterThing
-		} else {
-			cfg.Parent = ResThing
-		}
-		kinds := []*Resource{ResWidget, ResConfigMap, ResGadget}
-		if cfg.Parent == ResClusterThing {
-			kinds = append(kinds, ResClusterWidget)
-		}
-		cfg.Children = drawChildRules(t, cfg.Parent, allMethods, kinds)
-		cfg.GenerateSelector = t.Pick(4, "gensel") == 3
-		cfg.Finalize = t.Pick(3, "finalize") == 2
-		if t.Pick(3, "resync") == 2 {
-			cfg.ResyncSeconds = 5 + 10*t.Pick(4, "resyncs")
-		}
-		opts := &BootOptions{Composites: []*CompositeCfg{cfg}}
-		opts.Proc.Workers = 1 + t.Pick(3, "workers")
-		opts.Proc.SSA = t.Pick(4, "ssa") == 3
-		tp := &TemplateProgram{ParentKey: "parent", ChildrenKey: "children"}
-		for _, r := range cfg.Children {
-			tp.Kinds = append(tp.Kinds, r.Res)
-		}
-		switch t.Pick(4, "program") {
-		case 1:
-			tp.Ordered = true
-		case 2:
-			tp.Derived = len(tp.Kinds) > 1
-		}
-		tp.SetNamespace = t.Pick(2, "setns") == 1
-		tp.NoLabels = cfg.GenerateSelector && t.Pick(2, "nolabels") == 1
-		w.Cfg["parent"] = cfg.Parent.Kind
-		w.Cfg["ssa"] = fmt.Sprint(opts.Proc.SSA)
-		w.Cfg["gensel"] = fmt.Sprint(cfg.GenerateSelector)
-		w.Cfg["finalize"] = fmt.Sprint(cfg.Finalize)
-		w.Cfg["workers"] = fmt.Sprint(opts.Proc.Workers)
-		var ms []string
-		for _, r := range cfg.Children {
-			ms = append(ms, r.Res.Kind+":"+r.Method)
-		}
-		w.Cfg["children"] = strings.Join(ms, ",")
-		w.Cfg["program"] = fmt.Sprintf("ordered=%v derived=%v", tp.Ordered, tp.Derived)
-
-		mustCreate(w.Store, ResCompositeCtl, "", cfg.Object(), "setup")
-		progs := Programs{"cc": &Program{Sync: tp.SyncResponse, Finalize: tp.FinalizeResponse}}
-		w.HookProgram = progs.Answer
-		StandardBoot(w, opts)
-
-		// parents
-		nParents := 1 + t.Pick(2, "nparents")
-		var parents []ParentRef
-		for i := 0; i < nParents; i++ {
-			name := fmt.Sprintf("p%d", i)
-			ns := ""
-			if cfg.Parent.Namespaced {
-				ns = Namespaces[t.Pick(2, "pns")]
-			}
-			replicas := t.Pick(5, "replicas")
-			p := mustCreate(w.Store, cfg.Parent, ns, NewThing(cfg.Parent, ns, name, replicas, "c0"), "user")
-			parents = append(parents, ParentRef{cfg.Parent, ns, name})
-			// initial cluster contents around this parent
-			nInit := t.Pick(4, "ninit")
-			for j := 0; j < nInit; j++ {
-				k0 := cfg.Children[t.Pick(len(cfg.Children), "initkind")].Res
-				idx := t.Pick(5, "initidx")
-				cns := ""
-				if k0.Namespaced {
-					cns = ns
-					if cns == "" {
-						cns = "ns1"
-						if idx%2 == 1 {
-							cns = "ns2"
-						}
-					}
-				}
-				child := tp.desiredChild(p, k0, fmt.Sprintf("%s-%d", name, idx), cns, idx)
-				if cfg.GenerateSelector {
-					setPath(child, mstr(p, "uid"), "metadata", "labels", "controller-uid")
-				}
-				switch t.Pick(4, "initrole") {
-				case 0: // matching orphan
-				case 1: // owned, possibly stale or drifted
-					setPath(child, []interface{}{ownerRefObj(p, true)}, "metadata", "ownerReferences")
-					setPath(child, "drift", childContentField(k0), "color")
-					setPath(child, "keep-me", childContentField(k0), "foreign")
-				case 2: // owned but never desired (stale)
-					setPath(child, fmt.Sprintf("%s-stale%d", name, idx), "metadata", "name")
-					setPath(child, []interface{}{ownerRefObj(p, true)}, "metadata", "ownerReferences")
-				case 3: // foreign-owned look-alike under another name
-					setPath(child, fmt.Sprintf("%s-foreign%d", name, idx), "metadata", "name")
-					setPath(child, []interface{}{Object{"apiVersion": "v1", "kind": "Other", "name": "x", "uid": "uid-other", "controller": true}}, "metadata", "ownerReferences")
-				}
-				if _, e := w.Store.Create(k0, cns, child, "user"); e != nil {
-					w.Probe("init-collision")
-				}
-			}
-		}
-
-		edits := t.Pick(3, "edits")
+		s := NewCompositeSetup(w, GenOpts{AllowCluster: true, AllowSSA: true, MaxWorkers: 3, MaxParents: 2, Programs: true, AvoidKnown: true, Resync: true})
+		cfg, opts, parents := s.Cfg, s.Opts, s.Parents
+		b := &EnvBudget{Left: t.Pick(4, "edits")}
 		lastEditStep := 0
 		w.EnvOps = func(w *World) []EnvOp {
-			if edits <= 0 {
+			if b.Left <= 0 {
 				return nil
 			}
+			lastEditStep = w.step
 			var ops []EnvOp
-			for _, p := range parents {
-				p := p
-				ops = append(ops,
-					EnvOp{"recolor " + p.Name, func(w *World) {
-						edits--
-						lastEditStep = w.step
-						EditObject(w, p.Res, p.NS, p.Name, "user", func(o Object) {
-							setPath(o, fmt.Sprintf("c%d", w.step), "spec", "template", "color")
-						})
-					}},
-					EnvOp{"rescale " + p.Name, func(w *World) {
-						edits--
-						lastEditStep = w.step
-						n := w.T.Pick(5, "newreplicas")
-						EditObject(w, p.Res, p.NS, p.Name, "user", func(o Object) { setPath(o, int64(n), "spec", "replicas") })
-					}},
-					EnvOp{"renote " + p.Name, func(w *World) {
-						edits--
-						lastEditStep = w.step
-						EditObject(w, p.Res, p.NS, p.Name, "user", func(o Object) { setPath(o, fmt.Sprintf("n%d", w.step), "spec", "note") })
-					}},
-				)
+			ops = append(ops, s.ParentEdits(b)...)
+			ops = append(ops, s.ParentEdits(b)...)
+			// other writers: delete, drift (scalar, plain list, foreign field)
+			for _, op := range s.ChildChaos(b) {
+				if strings.HasPrefix(op.Name, "delete ") || strings.HasPrefix(op.Name, "drift-") {
+					ops = append(ops, op)
+				}
 			}
 			return ops
 		}
@@ -220,7 +109,7 @@ func C01Scenario() *Scenario {
 		pokeStep := 0
 		w.Stages = []Stage{
 			{Name: "converge", Policy: pol, Quiet: true, MaxSteps: 2500, Do: func(w *World) {}, OnBudget: func(w *World) *Violation { return c01Budget(w, cfg, opts) }},
-			{Name: "drain", Quiet: true, MaxSteps: 2500, Do: func(w *World) { edits = 0 }, OnBudget: func(w *World) *Violation { return c01Budget(w, cfg, opts) }},
+			{Name: "drain", Quiet: true, MaxSteps: 2500, Do: func(w *World) { b.Left = 0 }, OnBudget: func(w *World) *Violation { return c01Budget(w, cfg, opts) }},
 			{Name: "poke", Quiet: true, MaxSteps: 3000,
 				Do: func(w *World) {
 					pokeStep = w.step
@@ -368,11 +257,22 @@ func c01Check(w *World, cfg *CompositeCfg, opts *BootOptions, parents []ParentRe
 			}
 			want := deepCopy(d)
 			delete(meta(want), "namespace")
+			delete(want, "status") // a child's status belongs to the child's own controller
 			if !contains(owned[id], want) {
+				sig := copySig(sig)
+				sig["kindHasGeneration"] = fmt.Sprint(id.res.Generation)
 				return &Violation{Prop: "C01", Class: "field-differs-from-desired", Sig: sig,
 					Detail: fmt.Sprintf("child %s (method %s): stored %s does not contain desired %s", id, m, jsonString(owned[id]), jsonString(want))}
 			}
 		}
 	}
 	return nil
+}
+
+func copySig(m map[string]string) map[string]string {
+	out := map[string]string{}
+	for k, v := range m {
+		out[k] = v
+	}
+	return out
 }
